@@ -72,6 +72,87 @@ def targeted_work(rules):
     return n, fails
 
 
+def sstr(x):
+    try:
+        return str(x)
+    except BaseException as e:  # noqa: BLE001  (a broken tree may not print)
+        return f"<unprintable: {type(e).__name__}>"
+
+
+def two_step_work(args):
+    """Rule A applied at a node, then - on the RESULT OBJECT, not re-cloned - every rule B at every node of
+    the result: B's applicability answer must be usable (no raise, result well formed, same value)."""
+    from treelib import ASSIGNMENTS, ExpressionParser, close, holds, kind, wf_problems
+    from rules_tierb import evaluate, make_rule
+
+    items, rules = args
+    fails = []
+    n = 0
+    for text in items:
+        base = ExpressionParser().parse(text).clone()
+        count = len(nodes_inorder(base))
+        before = [evaluate(base, e) for e in ASSIGNMENTS]
+        is_eq = kind(base) == "EqualExpression"
+        for ra in rules:
+            rule_a = make_rule(ra)
+            for i in range(count):
+                first = ExpressionParser().parse(text).clone()
+                try:
+                    if not rule_a.can_apply_to(nodes_inorder(first)[i]):
+                        continue
+                    mid = rule_a.apply_to(nodes_inorder(first)[i]).result.get_root()
+                    mid_count = len(nodes_inorder(mid))
+                except Exception:  # noqa: BLE001  (the one-step sweep reports these)
+                    continue
+                for rb in rules:
+                    rule_b = make_rule(rb)
+                    for j in range(mid_count):
+                        t = ExpressionParser().parse(text).clone()
+                        mid = rule_a.apply_to(nodes_inorder(t)[i]).result.get_root()
+                        nodes = nodes_inorder(mid)
+                        if j >= len(nodes):
+                            continue
+                        node = nodes[j]
+                        where = f"{ra} at node {i} of `{text}` gives `{sstr(mid)}`; then {rb} at `{sstr(node)}`"
+                        try:
+                            if not rule_b.can_apply_to(node):
+                                continue
+                        except Exception as e:  # noqa: BLE001
+                            fails.append({"prop": "C06", "clause": "two-step/can_apply_to/no-raise", "cfg": rb, "detail": f"{where}: raised {type(e).__name__}", "input": text, "shape": {}})
+                            continue
+                        n += 1
+                        try:
+                            res = rule_b.apply_to(node).result.get_root()
+                        except Exception as e:  # noqa: BLE001
+                            fails.append({"prop": "C06", "clause": "two-step/apply_to/no-raise", "cfg": rb, "detail": f"{where}: raised {type(e).__name__}: {str(e)[:80]}", "input": text, "shape": {}})
+                            continue
+                        probs = wf_problems(res)
+                        if probs:
+                            fails.append({"prop": "C07", "clause": "two-step/structure/well-formed", "cfg": rb, "detail": f"{where}: {probs[0]}", "input": text, "shape": {}})
+                            continue
+                        for env, b in zip(ASSIGNMENTS, before):
+                            try:
+                                a = evaluate(res, env)
+                            except Exception:  # noqa: BLE001
+                                a = None
+                            if a is None or b is None:
+                                continue
+                            if is_eq:
+                                if isinstance(a, tuple) and isinstance(b, tuple) and holds(a) != holds(b):
+                                    fails.append({"prop": "C02", "clause": "two-step/equation/same-solutions", "cfg": rb, "detail": f"{where} -> `{sstr(res)}` at {env}", "input": text, "shape": {}})
+                                    break
+                            elif not (isinstance(a, tuple) or isinstance(b, tuple)) and not close(a, b):
+                                fails.append({"prop": "C01", "clause": "two-step/value/preserved", "cfg": rb, "detail": f"{where} -> `{sstr(res)}`: {float(b)} -> {float(a)} at {env}", "input": text, "shape": {}})
+                                break
+    return n, fails
+
+
+TWO_STEP = [
+    "(x + 2 * 3) + y", "(2 * 3 + x) + y", "(4x + 2 * 3) + 2x", "(x * (2 + 3)) * y", "(a + b) + (2 + 3)", "4x + (2x + 3)", "2 * (3 + x) * y", "(x + 1) * (y + 2)", "4x * 2y * 5x",
+    "x + 2 + 3 = 7", "2 * (x + 3) = 4", "3x + 7 = 2 + 4x", "4 - (2x + 3)", "(x / y) * (2 + 3)", "x^2 * x * 2 * 3", "-(2 + 3) * x + 4x", "7 - 2 - 3 + x", "(2 + x) + (3 + x)",
+]
+
+
 def main():
     max_expr = int(sys.argv[1])
     max_side = int(sys.argv[2])
@@ -91,6 +172,11 @@ def main():
     n, f = targeted_work(rules)
     total += n
     fails += f
+    two = 0
+    with mp.get_context("fork").Pool(nproc) as pool:
+        for n, f in pool.imap_unordered(two_step_work, [([t], rules) for t in TWO_STEP]):
+            two += n
+            fails += f
     # de-duplicate failures by (cfg, prop, clause, shape)
     seen = {}
     for f in fails:
@@ -98,7 +184,7 @@ def main():
         if key not in seen:
             seen[key] = dict(f, count=0)
         seen[key]["count"] += 1
-    print(json.dumps({"trees": len(allt), "expressions": len(exprs), "equations": len(eqs), "applications": total,
+    print(json.dumps({"trees": len(allt), "expressions": len(exprs), "equations": len(eqs), "applications": total, "two_step_applications_without_recloning": two,
                       "failures": list(seen.values()), "seconds": time.time() - t0}, default=str))
 
 
